@@ -70,6 +70,16 @@ pub fn run(tier: &str) -> i32 {
     // (members with @builtin are left out: the Rust struct has no field for them, so "every field at its WGSL
     // offset" is not well defined for what follows; C05 covers their assertion literals)
     all.extend(crate::c05::io_host_space().into_iter().filter(|p| !p.key.contains("variant=2")));
+    // member / element types written through `alias` declarations
+    {
+        let n0 = all.len();
+        for i in 0..n0 {
+            if thorough || i % 13 == 0 || all[i].key.starts_with("rt1") {
+                let v = alias_variants(&all[i]);
+                all.extend(v);
+            }
+        }
+    }
     // universe: every member type representable by glam
     let progs: Vec<StructProg> = all
         .into_iter()
@@ -89,7 +99,7 @@ pub fn run(tier: &str) -> i32 {
         let p = &progs[i];
         rep.states += 1;
         rep.transitions += p.env.get(&p.root).members.len() as u64;
-        let forced = p.key.starts_with("attr|") || p.key.starts_with("rt") || (p.key.starts_with("io-host|") && i % 4 == 0) || p.key.contains("vec3<f32>|f32") || p.key.contains("mat3x3<f32>") && p.key.starts_with("s1");
+        let forced = p.key.starts_with("attr|") || (p.key.starts_with("alias-") && i % 5 == 0) || p.key.starts_with("rt") || (p.key.starts_with("io-host|") && i % 4 == 0) || p.key.contains("vec3<f32>|f32") || p.key.contains("mat3x3<f32>") && p.key.starts_with("s1");
         if !(i % stride == 0 || forced) {
             continue;
         }
